@@ -13,7 +13,10 @@ pub fn check(property: &str) -> Option<CheckDef> {
         "C07" => Some(CheckDef {
             property: "C07",
             level: "exploration",
-            parts: vec![part(Box::new(Erased(engines::compile::CompileDeterminism)), 120_000, 2_500_000, "C07", 20)],
+            parts: vec![
+                part(Box::new(Erased(engines::compile::CompileDeterminism)), 120_000, 2_500_000, "C07", 20),
+                part(Box::new(Erased(engines::compile::CrossProcess)), 3_000, 60_000, "C07", 60),
+            ],
             assumptions: vec![
                 "shuttle coroutines stand in for OS threads: only the interleaving of object-id allocations and job boundaries is explored, which is the only shared state of compilation (one AtomicU64)",
                 "std HashMap keys are the only unseeded randomness; they are controlled through the getrandom symbol",
